@@ -6,7 +6,7 @@ from .values import *
 class Trig:
     def __init__(s, eng):
         s.eng = eng; s.pairs = {}; s.pair_terms = {}; s.roots = {}; s.atoms = []
-        s.atan2s = []; s.acoss = []
+        s.atan2s = []; s.acoss = []; s.expand = True
     def key(s, t): return z3.simplify(t, som=True).sexpr()
     def pair(s, t):
         k = s.key(t)
@@ -49,6 +49,7 @@ class Trig:
         return out + [v for v in keyed.values() if v[0] != 0]
     def sincos(s, t):
         """(sin t, cos t) as polynomial terms over atom pairs"""
+        if not s.expand: return s.pair(t)
         acc = None
         for co, u in s.group(t):
             if u.eq(PI):
@@ -71,7 +72,7 @@ class Trig:
     def sqrt(s, x):
         k = s.key(x)
         if k not in s.roots:
-            r = fresh('sqrt'); s.eng.side.append(z3.Implies(x >= 0, z3.And(r >= 0, r * r == x))); s.roots[k] = r
+            r = fresh('sqrt'); s.eng.side += [r >= 0, z3.Implies(x >= 0, r * r == x)]; s.eng.side_lin.append(r >= 0); s.roots[k] = r
         return s.roots[k]
     def atan2(s, y, x):
         """theta = atan2(y, x) for real y, x"""
@@ -80,6 +81,7 @@ class Trig:
         r = s.sqrt(x * x + y * y)
         th = fresh('atan2')
         sv, cv = s.pair(th)
+        s.eng.side_lin += [th > -PI, th <= PI]
         s.eng.side += [r * sv == y, r * cv == x, th > -PI, th <= PI,
                        z3.Implies(z3.And(x == 0, y == 0), z3.And(th == 0, sv == 0, cv == 1)),
                        # quadrant links between the numeric value and the pair
@@ -92,6 +94,8 @@ class Trig:
         k = 'acos|' + s.key(v)
         if k in s.roots: return s.roots[k]
         th = fresh('acos'); sv, cv = s.pair(th)
+        # the value of th is irrelevant when v is out of range (the result is NaN-flagged), so its range may be stated unconditionally
+        s.eng.side_lin += [th >= 0, th <= PI]; s.eng.side += [th >= 0, th <= PI]
         s.eng.side.append(z3.Implies(z3.And(v >= -1, v <= 1), z3.And(cv == v, sv >= 0, th >= 0, th <= PI,
                           (cv > 0) == (th < PI / 2), (cv < 0) == (th > PI / 2), (sv == 0) == z3.Or(th == 0, th == PI))))
         s.roots[k] = th; s.acoss.append((th, v))
